@@ -10,6 +10,7 @@ EXPLANATION = (
     "following pattern-bound fields back to the variants they came from, skipping arms of variants that are never constructed): constructible ⊆ encodable; "
     "(R-C20-passthrough) the Forward handed to the link carries the stored publish properties (so they survive towards MQTT 5 subscribers) and the publisher's topic alias is cleared before storage; every matching filter's log stores its own clone of the publish and of its properties. "
     "(R-C20-props) the broker's v5 PUBLISH property encoder and decoder use the same identifier and MQTT 5 wire type for each of the publish properties (shared with C04's table rule), and its reader/len() count every variable-length property value once with its 2-byte prefix (shared with R-C04-prop-accounting); "
+    "(R-C20-alias) a broker-side topic alias replaces the topic only for wildcard-free filters (or is keyed by the publish topic): one alias, one topic; "
     "NOT decided: byte-level equality of topic/payload across versions (value level, see C04).")
 ASSUMPTIONS = [
     "packets decoded from the network (constructed inside protocol::v4/v5 codec modules) reach an encoder only through the router paths analysed here (Publish properties are treated as possibly present)",
@@ -181,6 +182,48 @@ def run(ctx):
     ctx.stats["constructed_enum_variants"] = len(shapes.constructed)
     ctx.guarded("R-C20-passthrough", passthrough, ctx, prog)
     ctx.guarded("R-C20-props", publish_props, ctx, prog)
+    ctx.guarded("R-C20-alias", alias_stands_for_one_topic, ctx, prog)
+
+
+def alias_stands_for_one_topic(ctx, prog):
+    """'delivered with the same topic': towards an MQTT 5 subscriber the broker may replace the topic by a topic
+    alias.  An alias stands for ONE topic, so when it is looked up / created under the subscription filter, that
+    filter must be known to be free of wildcards (or the key must be the publish's own topic)."""
+    from .c15 import switch_on_call_result
+    rule = "R-C20-alias"
+    f = prog.one(r"^router::routing::forward_device_data$")
+    bodies = [f] + prog.find(r"^router::routing::forward_device_data::\{closure#\d+\}$")
+    n = 0
+    for b in bodies:
+        wild = switch_on_call_result(b, r"protocol::has_wildcards$")
+        for bb, t in b.calls():
+            if b.is_cleanup(bb) or not re.search(r"BrokerAliases::(get_alias|set_new_alias)$", callee_path(t)):
+                continue
+            n += 1
+            key = flatten_src(provenance(b, t["args"][1], through_calls=[r"Deref>::deref$", r"String::as_str$", r"from_utf8", r"Result::<T, E>::unwrap"]))
+            key = [x for x in key if not (x.kind == "call" and re.search(r"Deref>::deref$|String::as_str$", x.path))]
+            by_filter = any(getattr(x, "fields", None) and x.fields[-1].split(".")[-1].lstrip("^*") == "filter" for x in key)
+            by_topic = bool(key) and all(getattr(x, "fields", None) and "topic" in [y.split(".")[-1].lstrip("^*") for y in x.fields] for x in key)
+            guarded = False
+            # the call sits in a closure passed to and_then: judge the enclosing call site in the parent instead
+            sites = [(b, bb)]
+            if b.kind == "Closure":
+                sites = [(f, pbb) for pbb, pt in f.calls() if any(y.kind == "agg" and getattr(y, "adt", None) == b.id for a in pt["args"] for y in flatten_src(provenance(f, a)))]
+            for (sb, sbb) in sites:
+                for w in switch_on_call_result(sb, r"protocol::has_wildcards$"):
+                    arg = flatten_src(provenance(sb, sb.blocks[w[3]]["t"]["args"][0], through_calls=[r"Deref>::deref$", r"String::as_str$"]))
+                    if any(getattr(x, "fields", None) and x.fields[-1].split(".")[-1].lstrip("^*") == "filter" for x in arg) and dominates(sb, w[2], sbb):
+                        guarded = True
+            what = callee_path(t).rsplit("::", 1)[-1]
+            if by_topic or guarded:
+                ctx.ok(rule, b.id, "%s: the alias key is %s" % (what, "the publish's own topic" if by_topic else "the filter, known to have no wildcards"), site=b.loc(t.get("sp")))
+            elif by_filter:
+                ctx.violation(rule, b.id, "alias per filter (%s)" % what,
+                              "the topic alias towards the subscriber is looked up / created under the subscription FILTER without excluding wildcard filters: one alias then stands for every topic the filter matches, later batches are sent with the alias only, and a message published on a/c reaches an `a/+` subscriber as a message on a/b",
+                              site=b.loc(t.get("sp")))
+            else:
+                ctx.violation(rule, b.id, "alias key (%s)" % what, "the key of the broker-side topic alias is neither the publish topic nor a wildcard-free filter (%s)" % [(x.kind, getattr(x, "fields", None)) for x in key], site=b.loc(t.get("sp")))
+    ctx.floor(rule, "broker alias lookups / creations in forward_device_data", n, 2)
 
 
 class _PublishOnly:
@@ -233,8 +276,23 @@ def passthrough(ctx, prog):
                     found += 1
                     i = st["rv"]["fields"].index("properties")
                     srcs = flatten_src(provenance(body, st["rv"]["ops"][i], through_calls=[r"unwrap_or_default$"]))
-                    from_param = any(s.kind == "param" and s.l == 2 for s in srcs)
-                    if from_param:
+
+                    def expand(leaves, depth=0):
+                        out = []
+                        for x in leaves:
+                            if x.kind == "agg" and getattr(x, "var", None) == "Some" and depth < 4:
+                                out += expand(flatten_src(provenance(body, x.rv["ops"][0], through_calls=[r"unwrap_or_default$"])), depth + 1)
+                            else:
+                                out.append(x)
+                        return out
+                    leaves = expand(srcs)
+                    fresh = [x for x in leaves if x.kind == "agg" and getattr(x, "adt", "").endswith("PublishProperties")]
+                    from_param = any(s.kind == "param" and s.l == 2 for s in leaves) and not fresh
+                    if fresh:
+                        ctx.violation(rule, body.id, "Forward.properties rebuilt",
+                                      "on some path the properties handed to the subscriber are a freshly built PublishProperties instead of the stored ones (extended in place): the publisher's MQTT 5 properties are dropped for subscribers that take that path (e.g. those with a subscription identifier)",
+                                      site=body.loc(st.get("sp")))
+                    elif from_param:
                         ctx.ok(rule, body.id, "Forward.properties derives from the stored publish properties", site=body.loc(st.get("sp")))
                     else:
                         ctx.violation(rule, body.id, "Forward.properties",
